@@ -91,14 +91,14 @@ class Region:
 
 class State:
     def __init__(s):
-        s.frames, s.regions, s.pc, s.steps, s.log = [], [], [], 0, []
+        s.frames, s.regions, s.pc, s.steps, s.log, s.gmap = [], [], [], 0, [], {}
 
     def clone(s):
         t = State()
         t.frames = [dict(f, env=dict(f['env'])) for f in s.frames]
         for r in s.regions:
             q = Region(r.size, r.name, r.kind, r.zero); q.cells = dict(r.cells); q.live = r.live; t.regions.append(q)
-        t.pc = list(s.pc); t.steps = s.steps; t.log = list(s.log)
+        t.pc = list(s.pc); t.steps = s.steps; t.log = list(s.log); t.gmap = dict(s.gmap)
         return t
 
     def new_region(s, size, name, kind='heap', zero=False):
@@ -341,11 +341,11 @@ class Executor:
         if name in self.m.funcs or name in self.m.decls:
             return FuncPtr(name)
         key = name
-        if key in self.gregion:
-            return Ptr(self.gregion[key], 0)
+        if key in st.gmap:
+            return Ptr(st.gmap[key], 0)
         if name not in self.m.globals:
             # external data symbol (e.g. typeinfo, stdout): opaque non-null pointer
-            rid = st.new_region(0, 'extern@' + name, 'extern'); self.gregion[key] = rid
+            rid = st.new_region(0, 'extern@' + name, 'extern'); st.gmap[key] = rid
             return Ptr(rid, 0)
         ty, init, const = self.m.globals[name]
         try:
@@ -353,7 +353,7 @@ class Executor:
         except Exception:
             size = 0
         rid = st.new_region(size, '@' + name, 'const' if const else 'global', zero=True)
-        self.gregion[key] = rid
+        st.gmap[key] = rid
         if init and init not in ('zeroinitializer', 'undef'):
             try:
                 self._init(st, Ptr(rid, 0), ty, init)
@@ -1094,7 +1094,7 @@ class Executor:
             self.memcpy(st, args[0], args[1], self.concretize(st, args[2], work)); cont(); return
         if callee.startswith('llvm.memset'):
             self._memset(st, args[0], args[1], self.concretize(st, args[2], work)); cont(); return
-        if callee.startswith(('llvm.lifetime', 'llvm.dbg', 'llvm.assume', 'llvm.experimental.noalias', 'llvm.prefetch', 'llvm.stackrestore', 'llvm.invariant', 'llvm.va_', 'llvm.donothing')):
+        if callee.startswith(('llvm.lifetime', 'llvm.dbg', 'llvm.assume', 'llvm.experimental.', 'llvm.prefetch', 'llvm.stackrestore', 'llvm.invariant', 'llvm.va_', 'llvm.donothing')):
             cont(); return
         if callee.startswith('llvm.stacksave'):
             cont(NULL); return
@@ -1130,6 +1130,22 @@ class Executor:
                           'mul': lambda: z3.Or(z3.Not(z3.BVMulNoOverflow(A, B, True)), z3.Not(z3.BVMulNoUnderflow(A, B)))}[op]()
                 ov = simp(ov)
             cont([r, ov]); return
+        mm = re.match(r'llvm\.(ctpop|ctlz|cttz)\.i(\d+)', callee)
+        if mm and is_sym(args[0]):
+            op, w = mm.group(1), int(mm.group(2)); a = bv(args[0], w)
+            if op == 'ctpop':
+                r = z3.BitVecVal(0, w)
+                for b in range(w):
+                    r = r + z3.ZeroExt(w - 1, z3.Extract(b, b, a))
+            elif op == 'ctlz':
+                r = z3.BitVecVal(w, w)
+                for b in range(w):
+                    r = z3.If(z3.Extract(b, b, a) == 1, z3.BitVecVal(w - 1 - b, w), r)
+            else:
+                r = z3.BitVecVal(w, w)
+                for b in range(w - 1, -1, -1):
+                    r = z3.If(z3.Extract(b, b, a) == 1, z3.BitVecVal(b, w), r)
+            cont(simp(r)); return
         mm = re.match(r'llvm\.(ctpop|ctlz|cttz|bswap)\.i(\d+)', callee)
         if mm and not is_sym(args[0]):
             op, w = mm.group(1), int(mm.group(2)); a = args[0]
